@@ -3,6 +3,7 @@ package c32
 import (
 	"context"
 	"encoding/json"
+	"expvar"
 	"fmt"
 	"math/rand/v2"
 	"os"
@@ -36,8 +37,24 @@ type proc struct {
 type watch struct {
 	rec     reapRec
 	t0      time.Time
-	timeout time.Duration
+	timeout time.Duration // 0: reaping is disabled for the role of the entry
 	done    bool
+	fhb0    int64 // failed-heartbeat observations (process-wide) when the watch started
+	reaped0 int64 // nodes_reaped_ok (process-wide) when the watch started
+}
+
+// storeStat reads one of rqlite's process-wide expvar counters of the store
+// package (all nodes of a history live in this process).
+func storeStat(name string) int64 {
+	m, ok := expvar.Get("store").(*expvar.Map)
+	if !ok {
+		return -1
+	}
+	v, ok := m.Get(name).(*expvar.Int)
+	if !ok {
+		return -1
+	}
+	return v.Value()
 }
 
 type wk struct {
@@ -52,7 +69,9 @@ type wk struct {
 	curKind string
 	nextID  int
 	nextDir int
-	must    []string // kinds this history has to contain (taken as soon as feasible)
+	must    []string      // kinds this history has to contain (taken as soon as feasible)
+	reapV   time.Duration // ReapTimeout of every node of this history (0 = voters are never reaped)
+	reapN   time.Duration // ReapReadOnlyTimeout of every node (0 = non-voters are never reaped)
 	opsLeft int
 	polls   atomic.Int64
 	pollErr atomic.Int64
@@ -92,8 +111,8 @@ func find(es []entry, id string) *entry {
 
 func (w *wk) tune(expect int) func(s *store.Store) {
 	return func(s *store.Store) {
-		s.ReapTimeout = reapVoter
-		s.ReapReadOnlyTimeout = reapNonVoter
+		s.ReapTimeout = w.reapV
+		s.ReapReadOnlyTimeout = w.reapN
 		s.BootstrapExpect = expect
 	}
 }
@@ -245,6 +264,8 @@ func (w *wk) observe(p *proc) {
 				wt.rec.Removed = true
 				wt.rec.RemovedMs = float64(now.Sub(wt.t0).Microseconds()) / 1000
 				wt.rec.By = p.id
+				wt.rec.FailedHBs = storeStat("failed_heartbeat_observed") - wt.fhb0
+				wt.rec.ReapedOK = storeStat("nodes_reaped_ok") - wt.reaped0
 			}
 		}
 	}
@@ -301,12 +322,13 @@ func contactAge(p *proc) float64 {
 // addWatch registers p's entry as unresponsive from now on. Call immediately
 // before cutting / closing p.
 func (w *wk) addWatch(p *proc, e entry, cause string) *watch {
-	to := reapVoter
+	to := w.reapV
 	if e.Suffrage != "voter" {
-		to = reapNonVoter
+		to = w.reapN
 	}
 	age := contactAge(p)
-	wt := &watch{timeout: to, rec: reapRec{ID: e.ID, Addr: e.Addr, Role: e.Suffrage, Cause: cause, TimeoutMs: float64(to.Milliseconds()), ContactAgeMs: age}}
+	wt := &watch{timeout: to, rec: reapRec{ID: e.ID, Addr: e.Addr, Role: e.Suffrage, Cause: cause, TimeoutMs: float64(to.Milliseconds()), Disabled: to == 0, ContactAgeMs: age}}
+	wt.fhb0, wt.reaped0 = storeStat("failed_heartbeat_observed"), storeStat("nodes_reaped_ok")
 	w.mu.Lock()
 	wt.rec.DuringN = w.curN
 	wt.t0 = time.Now()
@@ -331,6 +353,31 @@ func (w *wk) watchDone(wt *watch) bool {
 	w.mu.Lock()
 	defer w.mu.Unlock()
 	return wt.done
+}
+
+// neverWindow is how long an unresponsive entry whose role is never reaped is
+// kept under observation: well beyond the timeout of the other role, so that a
+// reaper applying the other role's timeout to it is seen.
+func (w *wk) neverWindow() time.Duration {
+	m := w.reapV
+	if w.reapN > m {
+		m = w.reapN
+	}
+	return m + 4*time.Second
+}
+
+// closeSurvived ends the observation of an entry whose role is never reaped:
+// it was still listed by the leader on every poll of the window.
+func (w *wk) closeSurvived(wt *watch) {
+	w.mu.Lock()
+	defer w.mu.Unlock()
+	if wt.done || wt.timeout != 0 {
+		return
+	}
+	wt.done = true
+	wt.rec.SurvivedMs = float64(time.Since(wt.t0).Microseconds()) / 1000
+	wt.rec.FailedHBs = storeStat("failed_heartbeat_observed") - wt.fhb0
+	wt.rec.ReapedOK = storeStat("nodes_reaped_ok") - wt.reaped0
 }
 
 func (w *wk) newID() string {
@@ -461,6 +508,20 @@ var opKinds = []string{
 	"rejoin-same-other", "rejoin-same-other", "rejoin-same-same", "renotify", "remove", "cut-voter", "cut-nonvoter", "cut-nonvoter",
 }
 
+// reapCfg is the pair (ReapTimeout, ReapReadOnlyTimeout) all nodes of one
+// history run with; 0 means that role is never reaped.
+type reapCfg struct{ voter, nonvoter time.Duration }
+
+// Both orders of two far-apart timeouts, and each role disabled while the other
+// one is reaped. History i uses reapCfgs[(i+i/4)%4], so that every required
+// cut kind (w.must, i%4) meets every configuration.
+var reapCfgs = []reapCfg{
+	{reapShort, reapLong},
+	{reapShort, 0},
+	{0, reapShort},
+	{reapLong, reapShort},
+}
+
 func worker(args []string) {
 	var caseNo, nOps int
 	var seed int64
@@ -533,6 +594,18 @@ func runHistory(caseNo int, seed int64, tier, dir string, nOps int, forced strin
 		{"newnode-usedid-other", "cut-voter"},
 	}[caseNo%4]
 
+	// ---- reap configuration of this history (every node gets the same one)
+	rc := reapCfgs[(caseNo+caseNo/4)%len(reapCfgs)]
+	if len(forcedKinds) > 0 && strings.HasPrefix(forcedKinds[0], "reap=") {
+		var v, n int64
+		if _, err := fmt.Sscanf(forcedKinds[0], "reap=%d/%d", &v, &n); err == nil {
+			rc = reapCfg{time.Duration(v) * time.Millisecond, time.Duration(n) * time.Millisecond}
+		}
+		forcedKinds = forcedKinds[1:]
+	}
+	w.reapV, w.reapN = rc.voter, rc.nonvoter
+	res.ReapVoterMs, res.ReapNonVoterMs = rc.voter.Milliseconds(), rc.nonvoter.Milliseconds()
+
 	// ---- formation
 	formation := []string{"bootstrap-1", "notify-2", "notify-3", "notify-3"}[r.IntN(4)]
 	if len(forcedKinds) > 0 {
@@ -584,16 +657,23 @@ func runHistory(caseNo int, seed int64, tier, dir string, nOps int, forced strin
 		}
 	}
 	// let pending watches (closed nodes still listed) run out, bounded
-	deadline := time.Now().Add(reapNonVoter + 6*time.Second)
+	deadline := time.Now().Add(w.neverWindow() + 2*time.Second)
 	for time.Now().Before(deadline) {
 		pending := false
 		w.mu.Lock()
+		var never []*watch
 		for _, wt := range w.watches {
 			if !wt.done {
 				pending = true
+				if wt.timeout == 0 && time.Since(wt.t0) >= w.neverWindow() {
+					never = append(never, wt)
+				}
 			}
 		}
 		w.mu.Unlock()
+		for _, wt := range never {
+			w.closeSurvived(wt)
+		}
 		if !pending {
 			break
 		}
@@ -956,13 +1036,29 @@ func (w *wk) doOp(o *opRec, cfg []entry, l *proc) {
 			w.mu.Unlock()
 			w.net.Isolate(x.id, names)
 		}
-		deadline := time.Now().Add(wt.timeout + 10*time.Second)
-		for time.Now().Before(deadline) && !w.watchDone(wt) {
-			time.Sleep(20 * time.Millisecond)
-		}
-		if !w.watchDone(wt) {
-			o.Note = "not reaped within timeout+10s"
-			w.touch(x.id, "", "gave up waiting")
+		if wt.timeout == 0 {
+			// this role is never reaped: keep the entry under observation for the
+			// window; any poll of the leader without it ends the watch (removed)
+			deadline := time.Now().Add(w.neverWindow())
+			for time.Now().Before(deadline) && !w.watchDone(wt) {
+				time.Sleep(20 * time.Millisecond)
+			}
+			w.observeAll()
+			if !w.watchDone(wt) {
+				o.Note = fmt.Sprintf("role is never reaped; still listed after %v", w.neverWindow())
+				w.closeSurvived(wt)
+			} else {
+				o.Note = "role is never reaped, but the entry disappeared"
+			}
+		} else {
+			deadline := time.Now().Add(wt.timeout + 10*time.Second)
+			for time.Now().Before(deadline) && !w.watchDone(wt) {
+				time.Sleep(20 * time.Millisecond)
+			}
+			if !w.watchDone(wt) {
+				o.Note = "not reaped within timeout+10s"
+				w.touch(x.id, "", "gave up waiting")
+			}
 		}
 		// the node is gone for good (still cut when closed)
 		if !byClose {
